@@ -199,6 +199,13 @@ theorem reachable_oof {s : St} (h : Reachable s) : s.g.oof = false := by
     | new => rw [apply_new_g ha]; exact ih
     | inc a => rw [apply_inc_g ha, incRef_oof]; exact ih
     | dec a => rw [apply_dec_g ha, decRef_oof]; exact ih
+    | deref a b =>
+      simp only [apply] at ha
+      split at ha
+      · simp only [Option.some.injEq] at ha; subst ha
+        show (incRef s.g b).oof = false
+        rw [incRef_oof]; exact ih
+      · cases ha
     | edge a b =>
       rw [apply_edge_g ha]
       show (incRef s.g b).oof = false
